@@ -30,32 +30,20 @@ def writerCtx (nowNs : Int) (inp : Nat → Value) : Ctx :=
 @[rs_eval] theorem writerCtx_inp (n i) : (writerCtx n i).inp = i := rfl
 @[rs_eval] theorem writerCtx_ext (n i) : (writerCtx n i).ext = DictThreads.ext := rfl
 
-theorem lookup_filter_keys (bad : List String) (l : List (String × FnDecl)) (k : String) :
-    (l.filter fun p => !bad.contains p.1).lookup k = if bad.contains k then none else l.lookup k := by
-  induction l with
-  | nil => simp [List.lookup]
-  | cons a rest ih =>
-    obtain ⟨ak, ad⟩ := a
-    simp only [List.filter_cons]
-    by_cases hb : bad.contains ak = true
-    · simp only [hb, Bool.not_true, Bool.false_eq_true, if_false, ih]
-      by_cases hk : k = ak
-      · subst hk; simp_all
-      · simp_all [List.lookup]
-        have hk' : (k == ak) = false := by simpa using hk
-        simp [hk']
-    · have hb' : bad.contains ak = false := by simpa using hb
-      simp only [hb', Bool.not_false, if_true, List.lookup]
-      by_cases hk : k = ak
-      · subst hk; simp_all
-      · simp_all
-        have hk' : (k == ak) = false := by simpa using hk
-        simp [hk']
-
 /-- a function of the generated table is in the writer's table unless it is abstracted -/
 @[rs_eval] theorem writerFns_lookup (k : String) :
     writerFns.lookup k = if abstracted.contains k then none else Code.fns.lookup k :=
   lookup_filter_keys abstracted Code.fns k
+
+/-- ... and no impl block left in the writer's table provides the two abstracted methods (the core's trait-impl
+    fallback of `methodDecl`, `traitImplCands`, searches the table by self type and method name) -/
+@[rs_eval] theorem writerFns_cands_update :
+    traitImplCands writerFns "ShmUpdater" "process_clock_update" = [] := by
+  simp [writerFns, abstracted, rs_code, rs_eval]
+
+@[rs_eval] theorem writerFns_cands_missing :
+    traitImplCands writerFns "ShmUpdater" "process_missing_clock_update" = [] := by
+  simp [writerFns, abstracted, rs_code, rs_eval]
 
 /-- how the loop function ends: it returns `()` (Abort), or it panics (a handler panicked) -/
 def wloopResult (e : WEnd) (env : List (String × Value)) (log : List Value) (pos : Nat) : Res :=
